@@ -154,7 +154,7 @@ func meta() core.Meta {
 			"taint monitor":                      "harness: exact registry of planted secrets (password, long-term keys, session keys from the issue log, subkeys), searched raw / hex / base64 in every sink",
 		},
 		Assumptions: []string{
-			"legitimate carriers are not sinks: the keytab and ccache serialisations themselves, Keytab.String (a key listing by design, like klist -K), plaintext handed to encryption",
+			"legitimate carriers are not sinks: the keytab and ccache serialisations themselves (Marshal, Write), plaintext handed to encryption; Keytab.String is a sink (it is what fmt and log print for a keytab and for any struct holding one)",
 			"secrets are at least 16 random bytes (passwords 20 random characters), so a chance match is excluded",
 		},
 		Exhaustive:    false,
